@@ -140,6 +140,17 @@ class Report:
 # ----------------------------------------------------------------------------
 # token helpers
 
+def compact(toks: List[Tok]) -> str:
+    out = ""
+    prev = None
+    for t in toks:
+        if prev is not None and prev.kind in ("ident", "num") and t.kind in ("ident", "num"):
+            out += " "
+        out += t.text
+        prev = t
+    return out
+
+
 def strip_vis(toks: List[Tok]) -> List[Tok]:
     """drop `pub` / `pub(crate)` at the start of an item"""
     i = 0
@@ -521,59 +532,68 @@ def find_let(toks: List[Tok], name: str, k: int) -> Tuple[int, int, int]:
     raise Undecided(f"lost anchor: let {name}#{k}")
 
 
-def apply_lift(toks: List[Tok], lf: Lift, rep: Report, fn: str, leafs: List[Tuple[str, List[Tok]]]) -> List[Tok]:
-    m = re.match(r"^\s*fn\s+([A-Za-z_][A-Za-z0-9_]*)\s*(<[^()]*>)?\s*\((.*?)\)\s*(->.*)?$", lf.sig, re.S)
-    if not m:
-        raise Undecided(f"bad lift signature: {lf.sig[:60]}")
-    lname = m.group(1)
-    params = m.group(3)
-    args = []
-    is_method = False
-    for p in split_top(lex(params), ","):
-        if p:
-            if norm(p) in ("&self", "self", "&mut self"):
-                is_method = True
-                continue
-            a = p[0].text if p[0].text != "mut" else p[1].text
-            args.append(a)
+def locate_lift(toks: List[Tok], lf: Lift, fn: str) -> Tuple[int, int]:
     if lf.mode == "let":
         _, lo, semi = find_let(toks, lf.key, lf.k)
-        hi = semi - 1
-    else:
-        cnt = 0
-        lo = hi = None
-        for i, t in enumerate(toks):
-            if t.kind == "ident" and t.text == lf.key and i > 0 and is_p(toks[i - 1], ".") and \
-                    (is_p(toks[i + 1], "(") or adj(toks, i + 1, "::")):
-                cnt += 1
-                if cnt == lf.k:
-                    lo = chain_start(toks, i - 2)
-                    # closing paren of this call
-                    j = i + 1
-                    if adj(toks, j, "::"):
-                        d = 0
-                        j += 2
-                        while True:
-                            if is_p(toks[j], "<"):
-                                d += 1
-                            elif is_p(toks[j], ">"):
-                                d -= 1
-                                if d == 0:
-                                    break
-                            j += 1
+        return lo, semi - 1
+    cnt = 0
+    for i, t in enumerate(toks):
+        if t.kind == "ident" and t.text == lf.key and i > 0 and is_p(toks[i - 1], ".") and \
+                (is_p(toks[i + 1], "(") or adj(toks, i + 1, "::")):
+            cnt += 1
+            if cnt == lf.k:
+                lo = chain_start(toks, i - 2)
+                j = i + 1
+                if adj(toks, j, "::"):
+                    d = 0
+                    j += 2
+                    while True:
+                        if is_p(toks[j], "<"):
+                            d += 1
+                        elif is_p(toks[j], ">"):
+                            d -= 1
+                            if d == 0:
+                                break
                         j += 1
-                    hi = chain_end(toks, match_close(toks, j))
-                    break
-        if lo is None:
-            raise Undecided(f"lost anchor: lift chain .{lf.key}( #{lf.k} in {fn}")
-    cut = toks[lo:hi + 1]
-    if any(t.kind == "ident" and t.text in ("return", "break", "continue") for t in cut) or any(is_p(t, "?") for t in cut):
-        raise Undecided(f"lift {lname}: expression contains control flow")
-    leafs.append((lf.sig, cut, is_method))
-    rep.lifts.append({"name": lname, "fn": fn, "anchor": f"{lf.mode} {lf.key}#{lf.k}", "text": render(cut).strip()})
-    rep.rule("R6 lift expression to external_body leaf")
-    call = syn(("self." if is_method else "") + f"{lname}({lf.args or ', '.join(args)})", cut[0].pos, cut[0].ws)
-    return toks[:lo] + [call] + toks[hi + 1:]
+                    j += 1
+                hi = chain_end(toks, match_close(toks, j))
+                return lo, hi
+    raise Undecided(f"lost anchor: lift chain .{lf.key}( #{lf.k} in {fn}")
+
+
+def apply_lifts(toks: List[Tok], lifts: List[Lift], rep: Report, fn: str, leafs: List[tuple]) -> List[Tok]:
+    """ordinals refer to the function text as it is in /repo: all anchors are resolved first, then cut back to front"""
+    locs = [(locate_lift(toks, lf, fn), lf) for lf in lifts]
+    locs.sort(key=lambda x: x[0][0])
+    for (a, b), (c, d) in zip([l[0] for l in locs], [l[0] for l in locs][1:]):
+        if c <= b:
+            raise Undecided(f"overlapping lifts in {fn}")
+    pending = []
+    for (lo, hi), lf in reversed(locs):
+        m = re.match(r"^\s*fn\s+([A-Za-z_][A-Za-z0-9_]*)\s*(<[^()]*>)?\s*\((.*?)\)\s*(->.*|requires.*|ensures.*)?$", lf.sig, re.S)
+        if not m:
+            raise Undecided(f"bad lift signature: {lf.sig[:60]}")
+        lname = m.group(1)
+        params = m.group(3)
+        args = []
+        is_method = False
+        for p in split_top(lex(params), ","):
+            if p:
+                if compact(p) in ("&self", "self", "&mut self"):
+                    is_method = True
+                    continue
+                a = p[0].text if p[0].text != "mut" else p[1].text
+                args.append(a)
+        cut = toks[lo:hi + 1]
+        if any(t.kind == "ident" and t.text in ("return", "break", "continue") for t in cut) or any(is_p(t, "?") for t in cut):
+            raise Undecided(f"lift {lname}: expression contains control flow")
+        pending.append((lf.sig, cut, is_method))
+        rep.lifts.append({"name": lname, "fn": fn, "anchor": f"{lf.mode} {lf.key}#{lf.k}", "text": render(cut).strip()})
+        rep.rule("R6 lift expression to external_body leaf")
+        call = syn(("self." if is_method else "") + f"{lname}({lf.args or ', '.join(args)})", cut[0].pos, cut[0].ws)
+        toks = toks[:lo] + [call] + toks[hi + 1:]
+    leafs.extend(reversed(pending))
+    return toks
 
 
 def loop_positions(toks: List[Tok]) -> List[Tuple[int, int, int]]:
@@ -597,17 +617,6 @@ def loop_positions(toks: List[Tok]) -> List[Tuple[int, int, int]]:
                 j += 1
             res.append((i, j, match_close(toks, j)))
     return res
-
-
-def compact(toks: List[Tok]) -> str:
-    out = ""
-    prev = None
-    for t in toks:
-        if prev is not None and prev.kind in ("ident", "num") and t.kind in ("ident", "num"):
-            out += " "
-        out += t.text
-        prev = t
-    return out
 
 
 def rule_R7(toks: List[Tok], k: int, rep: Report, fn: str) -> List[Tok]:
@@ -647,6 +656,65 @@ def rule_R7(toks: List[Tok], k: int, rep: Report, fn: str) -> List[Tok]:
           [syn(f"{idx} += 1;", toks[bc].pos, " "), toks[bc]]
     rep.rule("R7 for-in-iter loop -> index while loop")
     return toks[:kw] + new + toks[bc + 1:]
+
+
+def rule_R10(toks: List[Tok], which: List[str], rep: Report, fn: str) -> List[Tok]:
+    """E?  ->  (match E { Ok(v__) => v__, Err(e__) => return Err(From::from(e__)) })
+    Verus gives `?` no error-conversion semantics; the desugared form is the definition of `?` for Result."""
+    qs = [i for i, t in enumerate(toks) if is_p(t, "?")]
+    sel = list(range(1, len(qs) + 1)) if "all" in which else [int(x) for x in which]
+    for k in sorted(sel, reverse=True):
+        if k > len(qs):
+            raise Undecided(f"lost anchor: `?` #{k} in {fn}")
+        q = qs[k - 1]
+        lo = chain_start(toks, q - 1)
+        first = toks[lo]
+        toks = toks[:lo] + [syn("(match ", first.pos, first.ws), Tok(first.kind, first.text, first.pos, "")] + toks[lo + 1:q] + \
+            [syn(" { Ok(v__) => v__, Err(e__) => return Err(From::from(e__)) })", toks[q].pos)] + toks[q + 1:]
+        rep.rule("R10 `?` desugared to match/return Err(From::from(e))")
+    return toks
+
+
+def inject_returns(toks: List[Tok], fs: FnSpec, fnq: str) -> List[Tok]:
+    """anchors on the K-th `return` keyword of the function (ordinal in the /repo text; lifts never contain one)"""
+    if not fs.returns:
+        return toks
+    rets = [i for i, t in enumerate(toks) if t.kind == "ident" and t.text == "return"]
+    ins_before: Dict[int, List[Tok]] = {}
+    ins_after: Dict[int, List[Tok]] = {}
+    for kind, k, text in fs.returns:
+        if k > len(rets):
+            raise Undecided(f"lost anchor: return #{k} in {fnq}")
+        i = rets[k - 1]
+        if kind == "before_return":
+            ins_before.setdefault(i, []).append(syn(text, toks[i].pos, toks[i].ws, tag=f"{fnq}.before_return{k}"))
+        else:
+            # innermost enclosing `{`
+            d = 0
+            j = i
+            while j >= 0:
+                t = toks[j]
+                if t.kind == "punct":
+                    if t.text in CLOSE:
+                        d += 1
+                    elif t.text in OPEN:
+                        if d == 0 and t.text == "{":
+                            break
+                        d -= 1
+                j -= 1
+            if j < 0:
+                raise Undecided(f"return #{k} in {fnq} has no enclosing block")
+            c = match_close(toks, j)
+            ins_after.setdefault(c, []).append(syn(text, toks[c].pos, "\n", tag=f"{fnq}.after_return_block{k}"))
+    out = []
+    for i, t in enumerate(toks):
+        if i in ins_before:
+            out += ins_before[i]
+            out.append(Tok(t.kind, t.text, t.pos, "\n"))
+        else:
+            out.append(t)
+        out += ins_after.get(i, [])
+    return out
 
 
 def inject_loops(toks: List[Tok], fs: FnSpec, fnq: str) -> List[Tok]:
@@ -743,8 +811,8 @@ class UnitBuilder:
             self.out.text(
                 f"impl From<{ty}> for {name} {{ fn from(e: {ty}) -> (r: {name}) ensures r == {cons} {{ {cons} }} }}\n"
                 f"impl vstd::std_specs::convert::FromSpecImpl<{ty}> for {name} {{\n"
-                f"    open spec fn obeys_from_spec() -> bool {{ false }}\n"
-                f"    open spec fn from_spec(v: {ty}) -> Self {{ arbitrary() }}\n}}\n", kind="gen")
+                f"    open spec fn obeys_from_spec() -> bool {{ true }}\n"
+                f"    open spec fn from_spec(e: {ty}) -> Self {{ {cons} }}\n}}\n", kind="gen")
             self.rep.rule("G1 From impl generated for thiserror #[from]")
 
     def emit_const(self, rel: str, spec: str):
@@ -808,8 +876,10 @@ class UnitBuilder:
         # body transformations
         leafs: List[tuple] = []
         if fs.kind == "fn":
-            for lf in fs.lifts:
-                body = apply_lift(body, lf, self.rep, fnq, leafs)
+            n_ret = sum(1 for t in body if t.kind == "ident" and t.text == "return")
+            body = apply_lifts(body, fs.lifts, self.rep, fnq, leafs)
+            if fs.desugar_try:
+                body = rule_R10(body, fs.desugar_try, self.rep, fnq)
             for k in sorted(fs.foreach, reverse=True):
                 body = rule_R7(body, k, self.rep, fnq)
             body = rule_R1(body, self.rep)
@@ -820,6 +890,11 @@ class UnitBuilder:
             for name, k, text in fs.after_let:
                 _, _, semi = find_let(body, name, k)
                 body = body[:semi + 1] + [syn(text, body[semi].pos, "\n", tag=f"{fnq}.after_let.{name}")] + body[semi + 1:]
+            for name, k, text in fs.before_let:
+                li, _, _ = find_let(body, name, k)
+                body = body[:li] + [syn(text, body[li].pos, body[li].ws, tag=f"{fnq}.before_let.{name}")] + \
+                    [Tok(body[li].kind, body[li].text, body[li].pos, "\n")] + body[li + 1:]
+            body = inject_returns(body, fs, fnq)
             body = inject_loops(body, fs, fnq)
             if fs.entry:
                 body = [body[0]] + [syn(e, body[0].pos, "\n", tag=f"{fnq}.entry") for e in fs.entry] + body[1:]
@@ -890,8 +965,12 @@ class UnitBuilder:
                 self.out.text(f"        {c.text}, // @{c.label}\n", kind="label", label=c.label, fn=fnq, clause="ensures")
                 labels.append(c.label)
         self.out.text("    /*CANARY:" + fnq + "*/\n", kind="gen")
-        body[0] = Tok(body[0].kind, body[0].text, body[0].pos, "")
-        self.out.toks(body, s, fnq)
+        if fs.kind == "leaf" and fs.stub:
+            self.out.text("{ unimplemented!() /* body not emitted: " + fs.stub + " */ }", kind="gen")
+            self.rep.rule(f"R6s leaf {fnq}: body not emitted ({fs.stub})")
+        else:
+            body[0] = Tok(body[0].kind, body[0].text, body[0].pos, "")
+            self.out.toks(body, s, fnq)
         self.out.text("\n")
         hi_line = self.out.line
         if imp is not None:
@@ -931,7 +1010,7 @@ class UnitBuilder:
         o = self.out
         o.text("// GENERATED by /verif/vtool/extract.py from the working tree of /repo -- do not edit\n"
                "#![allow(unused_imports, dead_code, unused_variables, unused_mut, unused_parens, non_snake_case, unused_assignments)]\n"
-               "use vstd::prelude::*;\nverus! {\nglobal size_of usize == 8;\n", kind="gen")
+               "use vstd::prelude::*;\nuse vstd::multiset::*;\nverus! {\nglobal size_of usize == 8;\n", kind="gen")
         for lib in self.spec.libs:
             p = os.path.join(self.libdir, lib)
             txt = open(p).read()
